@@ -1470,11 +1470,32 @@ def rule_body(ctx):
     if not ustructs:
         dd.add(bad('BODY-STRUCT', fs + '/struct', 'no production declares the operation struct', loc, 'CLI output lacks `struct Op;`: it does not compile'))
     for it in ustructs[:1]:
-        own = [c for c in it.conds if c[0] in ('match', 'if') and c[1] is not None and
-               'GraphQLClientCodegenOptions.mode' in TM.fields_in(c[1]) and c[1][0] == 'field']
+        def mode_of(c):
+            """the modes under which a condition on options.mode holds ({'Cli'} / {'Derive'}), None if it is not such a test"""
+            is_mode = lambda t_: t_[0] == 'field' and t_[3] == 'mode' and t_[2].endswith('GraphQLClientCodegenOptions')
+            name = lambda p_: p_[1].split('::')[-1] if p_[0] in ('ctor', 'global') else None
+            allm = {'Cli', 'Derive'}
+            if c[0] == 'match' and is_mode(c[1]) and c[2][0] == 'ctor':
+                return {name(c[2])}
+            if c[0] == 'match' and is_mode(c[1]) and c[2][0] == 'not' and c[2][1][0] == 'ctor':
+                return allm - {name(c[2][1])}
+            if c[0] == 'if' and c[1][0] == 'op' and c[1][1] == 'matches' and is_mode(c[1][2][0]) and c[1][2][1][0] == 'pat' and isinstance(c[1][2][1][1], tuple):
+                m_ = {name(c[1][2][1][1])}
+                return m_ if c[2] else allm - m_
+            if c[0] == 'if' and c[1][0] == 'op' and c[1][1] in ('==', '!=') and any(is_mode(x) for x in c[1][2]):
+                g_ = [x for x in c[1][2] if x[0] in ('global', 'ctor')]
+                if g_:
+                    m_ = {name(g_[0])}
+                    pos = (c[1][1] == '==') == bool(c[2])
+                    return m_ if pos else allm - m_
+            return None
+        own = [c for c in it.conds if c[0] in ('match', 'if') and c[1] is not None and mode_of(c) is not None]
         other = [c for c in it.conds if c[0] in ('match', 'if') and c[1] is not None and c not in own and c[1][0] != 'tuple' and
                  any(f_.startswith('GraphQLClientCodegenOptions.') for f_ in TM.fields_in(c[1]))]
-        cli = any(c[0] == 'match' and c[2][0] == 'ctor' and c[2][1].endswith('CodegenMode::Cli') for c in own)
+        modes = {'Cli', 'Derive'}
+        for c in own:
+            modes &= mode_of(c)
+        cli = bool(own) and modes == {'Cli'}
         if cli and not other:
             dd.add(ok('BODY-STRUCT', fs + '/struct', 'the operation struct is declared iff mode == Cli', ctx.site_loc(it.site)))
         else:
